@@ -217,7 +217,10 @@ class FuncContent:
             return
         elif is_decorator(self.command[0].string):
             return_command = self.lexer.parse_decorated_function(
-                self.tokenizer, self.command, self.tokenizer.file_path
+                self.tokenizer,
+                self.command,
+                self.tokenizer.file_path,
+                prefix=self.prefix,
             )
             if return_command is not None:
                 append_commands(self.__commands, return_command[0])
